@@ -201,6 +201,40 @@ Proof.
   rewrite Hex by auto. apply memN_In in Hin. now rewrite Hin.
 Qed.
 
+(* the value column assembled from dealt shares (as in shareColumn / ReconstructInTheExponent) *)
+Lemma dealt_vals : forall ids, wf_msp m -> NoDup ids ->
+  (forall id, In id ids -> In id (msp_lab m)) ->
+  let byrow := flat_map (fun sh : share => combine (rows_of m (fst sh)) (snd sh)) (rev (map (share_of K m lambda) ids)) in
+  map (fun r0 => match lookup_row r0 byrow with Some v => v | None => 0 end)
+      (filter (fun r0 => match lookup_row r0 byrow with Some _ => true | None => false end) (seq 0 (msp_size m)))
+  = map lam (sel_filter m ids).
+Proof.
+  intros ids [n [d [Hwf [Hlab [Hd Hn]]]]] Hnd Hknown byrow.
+  assert (Hby : byrow = map (fun k => (k, lam k)) (flat_map (rows_of m) (rev ids))).
+  { unfold byrow. rewrite <- map_rev, flat_map_concat_map, map_map.
+    rewrite <- flat_map_concat_map. rewrite <- flat_map_map_pairs. apply flat_map_ext. intros id.
+    cbn [fst snd share_of]. fold lambda. apply (combine_map_r lam). }
+  assert (Hlook : forall i, lookup_row i byrow =
+            if existsb (Nat.eqb i) (flat_map (rows_of m) (rev ids)) then Some (lam i) else None).
+  { intros i. rewrite Hby. apply lookup_row_fun. }
+  assert (Hex : forall i, (i < length (msp_lab m))%nat ->
+            existsb (Nat.eqb i) (flat_map (rows_of m) (rev ids)) = memN (nth i (msp_lab m) 0%N) ids).
+  { intros i Hi. apply eq_true_iff_eq. rewrite existsb_exists, memN_In. split.
+    - intros [k [Hk E]]. apply Nat.eqb_eq in E. subst k. apply in_flat_map in Hk.
+      destruct Hk as [id [Hid Hk]]. apply in_rev in Hid. apply rows_of_in in Hk. destruct Hk as [_ <-]. exact Hid.
+    - intros Hin. exists i. split; [|apply Nat.eqb_refl]. apply in_flat_map.
+      exists (nth i (msp_lab m) 0%N). split; [now apply -> in_rev|]. apply rows_of_in. auto. }
+  assert (Hsize : msp_size m = length (msp_lab m)).
+  { unfold msp_size. destruct Hwf as [HL _]. lia. }
+  assert (Hkeys : filter (fun r0 => match lookup_row r0 byrow with Some _ => true | None => false end)
+                         (seq 0 (msp_size m)) = sel_filter m ids).
+  { rewrite Hsize. unfold sel_filter. apply filter_ext_in. intros i Hi. apply in_seq in Hi.
+    rewrite Hlook, Hex by lia. destruct (memN _ ids); reflexivity. }
+  rewrite Hkeys.
+  apply map_ext_in. intros i Hi. rewrite Hlook. apply in_sel_filter in Hi. destruct Hi as [Hil Hin].
+  rewrite Hex by auto. apply memN_In in Hin. now rewrite Hin.
+Qed.
+
 (* lam over the selected rows is (selected sub-matrix)·r *)
 Lemma lam_sub_rows : forall rows, map lam rows = mvec K (sub_rows (msp_M m) rows) r.
 Proof.
